@@ -549,6 +549,12 @@ pub fn self_test() -> Result<usize, String> {
         Ok(())
     }
     let mut n = 0;
+    if cfg!(miri) {
+        // the interpreter is ~4 orders of magnitude slower: a small self-test only
+        one::<U3, U2>(&mut n)?;
+        one::<U8, U3>(&mut n)?;
+        return Ok(n);
+    }
     one::<U1, U1>(&mut n)?;
     one::<U2, U3>(&mut n)?;
     one::<U3, U2>(&mut n)?;
